@@ -47,6 +47,7 @@ type JobResult struct {
 	Incomplete   map[string]int    `json:"incomplete"`
 	Unsupported  map[string]int    `json:"unsupported"`
 	Blocked      map[string]int    `json:"blocked"`
+	Cuts         map[string]int    `json:"cuts"`
 	Reached      map[string]bool   `json:"reached"`
 	Functions    []string          `json:"functions"`
 	MergeAborts  map[string]int    `json:"mergeAborts"`
@@ -170,6 +171,9 @@ func runJobs(jobPath, outPath, only string, verbose bool) int {
 			}
 			for k, n := range jr.Blocked {
 				fmt.Fprintf(os.Stderr, "  BLOCKED x%d %s\n", n, k)
+			}
+			for k, n := range jr.Cuts {
+				fmt.Fprintf(os.Stderr, "  CUT x%d %s\n", n, k)
 			}
 			for k, n := range jr.MergeAborts {
 				fmt.Fprintf(os.Stderr, "  merge-abort x%d %s\n", n, k)
@@ -322,6 +326,7 @@ func runJob(prog *ssa.Program, mainPkg *ssa.Package, all []*ssa.Package, cfg Con
 	jr.Incomplete = w.incompletes
 	jr.Unsupported = w.unsupporteds
 	jr.Blocked = w.blocked
+	jr.Cuts = w.cuts
 	jr.Reached = w.reached
 	jr.MergeAborts = w.mergeAbortWhy
 	jr.Samples = w.samples
